@@ -34,6 +34,7 @@ type Gen struct {
 	Verbose  bool
 	epochs   map[int]bool
 	WFAxioms bool // emit global heap well-formedness axioms
+	WFEntry  bool // emit heap well-formedness axioms for the heaps as they are at function entry
 	heapRefs map[string]bool // name@epoch consts referenced
 	heapRefOrder []string
 }
@@ -62,12 +63,16 @@ func Load(repo string) (*Gen, error) {
 		}
 	}
 	g.WFAxioms = os.Getenv("GOVC_WF") == "1"
+	g.WFEntry = os.Getenv("GOVC_WF") != "0" && os.Getenv("GOVC_WF") != "1"
 	cs, err := LoadContracts(repo)
 	if err != nil {
 		return nil, err
 	}
 	g.CS = cs
 	g.Pures = cs.Pures
+	if err := g.expandTemplates(); err != nil {
+		return nil, err
+	}
 	g.indexFunctions()
 	g.StrLit("")
 	g.TE.heapSort["$next"] = SInt
@@ -319,7 +324,7 @@ func (g *Gen) unchangedAll(old, cur HeapView, except map[string]bool) string {
 			continue
 		}
 		a, b := os.Heap(h), cs.Heap(h)
-		if a == b {
+		if a == b || strings.HasPrefix(h, "G_ghost_") {
 			continue
 		}
 		if strings.HasPrefix(h, "G_") {
@@ -442,11 +447,27 @@ func (g *Gen) PreparePures() (err error) {
 			ps = append(ps, fmt.Sprintf("(p_%s %s)", p.Name, g.TE.SortOf(resolveTypeText(pkg, p.T.Text))))
 		}
 		rs := g.TE.SortOf(resolveTypeText(pkg, pf.Result.Text))
-		kw := "define-fun"
 		if pf.Recursive {
-			kw = "define-fun-rec"
+			// Fuel encoding (as in Dafny): the definitional axiom unfolds one level per unit of fuel, so
+			// E-matching cannot loop; a synonym axiom makes the fuel argument irrelevant to the value.
+			var sorts, vars []string
+			for _, p := range ps {
+				f := strings.Fields(strings.Trim(p, "()"))
+				vars = append(vars, f[0])
+				sorts = append(sorts, strings.TrimSpace(p[strings.Index(p, " ")+1:len(p)-1]))
+			}
+			sym := pureSym(pf)
+			app := func(fuel string) string {
+				return fmt.Sprintf("(%s %s)", sym, strings.Join(append([]string{fuel}, vars...), " "))
+			}
+			binders := "(fuelv Fuel) " + strings.Join(ps, " ")
+			txt := fmt.Sprintf("(declare-fun %s (Fuel %s) %s)\n", sym, strings.Join(sorts, " "), rs)
+			txt += fmt.Sprintf("(assert (forall (%s) (! (= %s %s) :pattern (%s))))\n", binders, app("(FS fuelv)"), body, app("(FS fuelv)"))
+			txt += fmt.Sprintf("(assert (forall (%s) (! (= %s %s) :pattern (%s))))", binders, app("(FS fuelv)"), app("fuelv"), app("(FS fuelv)"))
+			g.pureDefs = append(g.pureDefs, txt)
+		} else {
+			g.pureDefs = append(g.pureDefs, fmt.Sprintf("(define-fun %s (%s) %s %s)", pureSym(pf), strings.Join(ps, " "), rs, body))
 		}
-		g.pureDefs = append(g.pureDefs, fmt.Sprintf("(%s %s (%s) %s %s)", kw, pureSym(pf), strings.Join(ps, " "), rs, body))
 	}
 	for _, k := range names {
 		emit(k, map[string]bool{})
@@ -467,6 +488,9 @@ func (g *Gen) evalPureBody(pf *PureFn, view HeapView) string {
 		panic(ErrSubset{"spec function in unknown package " + pf.Pkg})
 	}
 	env := &SpecEnv{G: g, Pkg: pkg, Vars: map[string]SV{}, Cur: view, Next0: "0"}
+	if pf.Recursive {
+		env.Fuel = "fuelv"
+	}
 	for _, p := range pf.Params {
 		env.Vars[p.Name] = SV{Term: "p_" + p.Name, Typ: resolveTypeText(pkg, p.T.Text)}
 	}
@@ -530,6 +554,13 @@ func (e *SpecEnv) callPure(pf *PureFn, x SCall) SV {
 		e.fail("%s: want %d args", pf.Name, len(pf.Params))
 	}
 	var args []string
+	if pf.Recursive {
+		if e.Fuel != "" {
+			args = append(args, e.Fuel)
+		} else {
+			args = append(args, "(FS (FS FZ))")
+		}
+	}
 	for _, h := range pf.Heaps {
 		if h == "$next" {
 			args = append(args, e.Cur.Next())
@@ -558,4 +589,95 @@ func (e *SpecEnv) callPure(pf *PureFn, x SCall) SV {
 		return SV{Term: pureSym(pf), Typ: rt}
 	}
 	return SV{Term: fmt.Sprintf("(%s %s)", pureSym(pf), strings.Join(args, " ")), Typ: rt}
+}
+
+
+// expandTemplates expands "forall-fields F of T kind :: text" schemas using go/types.
+// kind: ptr (pointer fields), all (every field), scalar (non-pointer, non-slice fields); the XMLName field is always skipped.
+func (g *Gen) expandTemplates() (err error) {
+	defer func() {
+		if r := recover(); r != nil {
+			if e, ok := r.(ErrSubset); ok {
+				err = fmt.Errorf("template: %s", e.Msg)
+				return
+			}
+			panic(r)
+		}
+	}()
+	for _, t := range g.CS.Templates {
+		// header: "F of T kind :: body"
+		i := strings.Index(t.Text, "::")
+		if i < 0 {
+			return fmt.Errorf("%s:%d: forall-fields needs '::'", t.File, t.Line)
+		}
+		hd := strings.Fields(t.Text[:i])
+		body := strings.TrimSpace(t.Text[i+2:])
+		if len(hd) < 3 || hd[1] != "of" {
+			return fmt.Errorf("%s:%d: forall-fields: want 'F of Type [ptr|all|scalar]'", t.File, t.Line)
+		}
+		kind := "all"
+		if len(hd) >= 4 {
+			kind = hd[3]
+		}
+		pkg := g.pkgTypes(t.Pkg)
+		typ := resolveTypeText(pkg, hd[2])
+		st, ok := typ.Underlying().(*types.Struct)
+		if !ok {
+			return fmt.Errorf("%s:%d: forall-fields: %s is not a struct", t.File, t.Line, hd[2])
+		}
+		n := 0
+		for k := 0; k < st.NumFields(); k++ {
+			f := st.Field(k)
+			if f.Name() == "XMLName" {
+				continue
+			}
+			_, isPtr := f.Type().Underlying().(*types.Pointer)
+			_, isSl := f.Type().Underlying().(*types.Slice)
+			switch kind {
+			case "ptr":
+				if !isPtr {
+					continue
+				}
+			case "scalar":
+				if isPtr || isSl {
+					continue
+				}
+			}
+			tn := types.TypeString(f.Type(), func(p *types.Package) string {
+				if p == pkg {
+					return ""
+				}
+				return p.Name()
+			})
+			tn = strings.TrimPrefix(tn, "*")
+			txt := strings.ReplaceAll(strings.ReplaceAll(body, "$F", f.Name()), "$T", tn)
+			n++
+			if t.Kw == "spec" {
+				pf, err := parsePure(t.Pkg, txt)
+				if err != nil {
+					return fmt.Errorf("%s:%d: %v", t.File, t.Line, err)
+				}
+				pf.File, pf.Line = t.File, t.Line
+				g.CS.Pures[t.Pkg+"."+pf.Name] = pf
+				continue
+			}
+			e, err := ParseSpec(txt)
+			if err != nil {
+				return fmt.Errorf("%s:%d: %v", t.File, t.Line, err)
+			}
+			cl := Clause{Text: txt, Expr: e, Line: t.Line, File: t.File}
+			switch t.Kw {
+			case "requires":
+				t.Owner.Requires = append(t.Owner.Requires, cl)
+			case "ensures":
+				t.Owner.Ensures = append(t.Owner.Ensures, cl)
+			case "invariant":
+				t.Loop.Invariants = append(t.Loop.Invariants, cl)
+			}
+		}
+		if n == 0 {
+			return fmt.Errorf("%s:%d: forall-fields over %s (%s) expands to nothing", t.File, t.Line, hd[2], kind)
+		}
+	}
+	return nil
 }
